@@ -125,7 +125,7 @@ def Action.touchesSource : Action → Bool
 
 /-- the reader will not call the source again once `_stop` is set -/
 def RPc.pastSource : RPc → Bool
-  | .top | .app _ _ | .put _ | .exited => true
+  | .top | .app _ _ | .put _ | .ret | .exited => true
   | _ => false
 
 /-- the reader of this generation is done with the source: it has exited, or `_stop` is set and it is past its last
